@@ -66,6 +66,7 @@ fn utf8_with_one_wide<const N: usize>(b: &[u8; N]) {
 }
 
 // @harness props=C11,C16 tier=quick cost=40
+// @replay printf_cli
 // @exec FormatStringParser::{peek,advance_by}
 // @sym 4-byte text with at most one 2-byte character at any position; count 0..5
 // @bounds text of 4 bytes
